@@ -17,18 +17,21 @@ CHECKS = {
          "Real value_iteration_reach of each node kind for ALL successor values/probabilities (out-degree<=4): max/min/sum, stays "
          "below any fixed point it started below; real Solver.value_iteration_reachability run for its last sweep from an ARBITRARY "
          "pre-state (n<=3): residual<=threshold on return, unlisted/final states untouched, seeding, 'no solution' iff pruning and "
-         "value 0. Whole solve() on template families vs exact max-min values (concrete doubles, Fraction oracle).",
+         "value 0. Reachability phase on acyclic templates with ALL probabilities symbolic: reported values equal the backward-"
+         "induction values exactly. Whole solve() on template families vs exact max-min values (concrete doubles, Fraction oracle).",
          TB + "; convergence closeness only on the template grid (KF-1: stopping rule unsound on slowly mixing chains); "
               "non-expansiveness paper step links last-sweep change to residual"),
  "C02": ("DESIGN.md 4/C02", SE + "; node lemmas, loop post-condition, whole solve() with ALL rewards symbolic vs SMT Bellman oracle",
          "Real value_iteration_rewards per node kind (all values), last sweep of value_iteration_total_rewards from an arbitrary "
          "pre-state, and the whole real solve() on stopping template families with every reward a solver variable: reported rewards "
-         "equal the unique solution of the reference-conditioned game's max-min equations within 4e-5, for all reward vectors at once.",
+         "equal the unique solution of the reference-conditioned game's max-min equations within 4e-5, for all reward vectors at once; "
+         "on the dead-successor family also with the root's distribution symbolic (renormalisation right for every distribution).",
          TB + "; probabilities concrete (grid); rewards in {0} u [1/8,4]; reference conditioning written from the statement"),
  "C03": ("DESIGN.md 4/C03", SE + "; per-node conditioning lemma (all values, out-degree<=4) and prune_states on all small skeletons",
          "Real Solver.prune_reachability / prune_stochastich_game / prune_states: one arbitrary Player 1 or probabilistic node in an "
          "arbitrary game (all arrangements of 0..K dead successors, all probabilities and values as solver variables, K<=4), and "
-         "prune_states on every skeleton with <=4 states; every obligation decided by z3, counterexamples replayed natively.",
+         "prune_states on every skeleton with <=4 states; whole solve() with a symbolic distribution at the root: the root's reward is the "
+         "mass-renormalised average of the surviving successors; every obligation decided by z3, counterexamples replayed natively.",
          TB + "; locality of pruning enforced by the harness; out-degree > 4 outside"),
  "C04": ("DESIGN.md 4/C04", SE + "; strategy-extraction lemmas for all values and digit counts; template runs vs exact arg-max sets",
          "Real get_best/worst_strategies_reachability for all successor values (K<=4, digits 1..9): exactly the actions with extremal "
@@ -123,14 +126,16 @@ def main():
         hooks=dict(guard="CONDITIONALREWARDS_VERIF",
                    enable="none needed: checks load /repo's sources into fresh namespaces; environment stubs are injected as module globals",
                    baseline_off_cmd="cd /repo && /venv/bin/python -m pytest -ra -q -p no:cacheprovider --timeout=900 --continue-on-collection-errors",
-                   source_commits=[], add_only=True),
+                   source_commits=[], add_only=True),   # no hook commits: stubs are injected as module globals at load time
         engines=[dict(name="symex", path="symex/", serves_properties=sorted(CHECKS),
                       kind_free_text="proxy-based symbolic executor for Python over z3: real functions of /repo run on "
                                      "values carrying z3 terms; path exploration by re-execution; every assertion decided by z3; "
                                      "counterexamples replayed natively")],
         checks=checks,
         notes="Exit codes: 0 holds within bounds; 1 natively reproduced violation (VIOLATION line); 2 inconclusive/harness error. "
-              "Known findings in known_findings.json. See DESIGN.md.",
+              "Known findings (KF-1, KF-2a-f, KF-3) in known_findings.json; fix commits ffbc1d8, 40a4ab5, aa12cad, ae4ce9f in /repo. "
+              "Quick tier: 1-40 s per property (about 4.5 min for all 17); thorough tier: 1 s - 13 min per property (about 85 min for all). "
+              "Harnesses labelled CONCRETE / SENTINEL in the evidence are concrete executions, not solver verdicts. See DESIGN.md section 10.",
         not_applicable=na)
     with open(os.path.join(V, "MANIFEST.json"), "w") as f:
         json.dump(m, f, indent=1)
